@@ -9,14 +9,45 @@ import Restli.Model.LazyMap
                                (validation of the model against the code, not part of any proof)
 
 `<progs>` = `((op …) (op …) …)` one list per thread, `op` = `(los k fv) | (load k) | (store k v)`;
-`<schedule>` = `(t t t …)`. -/
+`<schedule>` = `(t t t …)`.
+
+Values are opaque to the model (natural numbers). The harness computes and stores Go values
+of several kinds and names each one by a tagged id: `n` (an int), or a letter and a number:
+`e n` an error made by `errors.New`, `f n` an error of a struct type, `n n` the nil interface,
+`p n` a pointer, `s n` a struct (`n < 1000`). Here the name becomes the number `1000·tag + n`
+and is printed back as the name; every nil interface prints as `nil` (the harness cannot tell
+one from another, nor from the content of a placeholder nobody has written yet). -/
 namespace Restli.LazyMap
 open Restli
 
+/-- letters of the value kinds; the position is the tag (0: an int, no letter) -/
+def valTags : List Char := ['i', 'e', 'f', 'n', 'p', 's']
+
+def nilTag : Nat := 3
+
+def valOfAtom (a : String) : Option Nat :=
+  match a.toList with
+  | [] => none
+  | c :: rest =>
+    if c.isDigit then do
+      let n ← a.toNat?
+      if n < 1000 then pure n else none
+    else do
+      let t := valTags.idxOf c
+      let n ← (String.ofList rest).toNat?
+      if 0 < t && t < valTags.length && n < 1000 then pure (1000 * t + n) else none
+
+def valName (v : Nat) : String :=
+  if v < 1000 then toString v else s!"{valTags.getD (v / 1000) '?'}{v % 1000}"
+
+/-- a value as a call result or as the content of a cell -/
+def renderValue (v : Nat) : String :=
+  if v / 1000 = nilTag then "nil" else s!"val:{valName v}"
+
 def opOfSexp : Sexp → Option Op
-  | .list [.atom "los", .atom k, .atom v] => do pure (.los (← k.toNat?) (← v.toNat?))
+  | .list [.atom "los", .atom k, .atom v] => do pure (.los (← k.toNat?) (← valOfAtom v))
   | .list [.atom "load", .atom k] => do pure (.load (← k.toNat?))
-  | .list [.atom "store", .atom k, .atom v] => do pure (.store (← k.toNat?) (← v.toNat?))
+  | .list [.atom "store", .atom k, .atom v] => do pure (.store (← k.toNat?) (← valOfAtom v))
   | _ => none
 
 def progsOfSexp : Sexp → Option (List (List Op))
@@ -34,13 +65,20 @@ def schedOfSexp : Sexp → Option (List Nat)
 def renderRet : Ret → String
   | .unit => "unit"
   | .missing => "missing"
-  | .val v => s!"val:{v}"
+  | .val v => renderValue v
   | .nil => "nil"
 
 def renderCell : Cell → String
   | .absent => "absent"
   | .infl _ => "inflight"
-  | .val v => s!"val:{v}"
+  | .val v => renderValue v
+
+/-- what a `Load` of the key returns once every thread has finished (`placeholder`: the cell
+still holds one; the harness does not call `Load` then) -/
+def renderFinal : Cell → String
+  | .absent => "missing"
+  | .infl _ => "placeholder"
+  | .val v => renderValue v
 
 /-- the name of the yield point in lazymap.go the thread is standing at -/
 def pointName (t : Thread) : String :=
@@ -64,7 +102,8 @@ def keysOf (progs : List (List Op)) : List Nat :=
 def paren (xs : List String) : String := "(" ++ " ".intercalate xs ++ ")"
 
 /-- canonical observable of a state: per-thread results, per-thread yield point, user-compute
-count per key, raw cell per key, threads blocked in `Wait`. -/
+count per key, raw cell per key, threads blocked in `Wait`; once every thread has finished,
+also the value a `Load` returns for every key. -/
 def observe (n : Nat) (keys : List Nat) (s : Sys) : String :=
   let tids := List.range n
   let rets := tids.map (fun i => paren ((s.threads i).rets.map renderRet))
@@ -72,7 +111,10 @@ def observe (n : Nat) (keys : List Nat) (s : Sys) : String :=
   let comp := keys.map (fun k => s!"{k}:{s.computes k}")
   let cells := keys.map (fun k => s!"{k}:{renderCell (s.cell k)}")
   let blocked := tids.filter (fun i => (s.threads i).todo != [] && (step s i).isNone)
-  s!"rets={paren rets} at={paren pts} computes={paren comp} cells={paren cells} blocked={paren (blocked.map toString)}"
+  let fin := if tids.all (fun i => (s.threads i).todo.isEmpty) then
+      " final=" ++ paren (keys.map (fun k => s!"{k}:{renderFinal (s.cell k)}"))
+    else ""
+  s!"rets={paren rets} at={paren pts} computes={paren comp} cells={paren cells} blocked={paren (blocked.map toString)}{fin}"
 
 def opRun (args : List Sexp) : String :=
   match args with
